@@ -748,7 +748,39 @@ fn vcf_to_bcf_inner(vcf: &[u8]) -> io::Result<Vec<u8>> {
         let rec = rec?;
         w.write_record(&header, &rec)?;
     }
-    Ok(w.into_inner())
+    let mut raw = w.into_inner();
+    htslib_phased_missing(&mut raw, vcf);
+    Ok(raw)
+}
+
+/// noodles' writer encodes a missing allele as 0x00 also after a '|'; htslib (bcftools), which
+/// writes the BCF files met in practice, keeps the phase bit and writes 0x01. The encoder follows
+/// htslib here, so that `1|.` in the text is the same call in both containers. Only GT vectors
+/// typed 2 x int8 as the first FORMAT field are touched.
+fn htslib_phased_missing(raw: &mut [u8], vcf: &[u8]) {
+    let offs = bcf_record_offsets(raw);
+    let recs: Vec<&[u8]> = vcf.split(|&b| b == b'\n').filter(|l| !l.is_empty() && l[0] != b'#').collect();
+    if recs.len() != offs.len() {
+        return;
+    }
+    for (line, &o) in recs.iter().zip(offs.iter()) {
+        let cols: Vec<&[u8]> = line.split(|&b| b == b'\t').collect();
+        if cols.len() < 10 || !(cols[8] == b"GT" || cols[8].starts_with(b"GT:")) {
+            continue;
+        }
+        let ls = u32::from_le_bytes([raw[o], raw[o + 1], raw[o + 2], raw[o + 3]]) as usize;
+        let indiv = o + 8 + ls;
+        let nsamples = cols.len() - 9;
+        if indiv + 3 + 2 * nsamples > raw.len() || raw[indiv] != 0x11 || raw[indiv + 2] != 0x21 {
+            continue;
+        }
+        for (s, col) in cols[9..].iter().enumerate() {
+            let gt = col.split(|&b| b == b':').next().unwrap_or(&[]);
+            if gt.len() >= 3 && gt.ends_with(b"|.") && raw[indiv + 3 + 2 * s + 1] == 0x00 {
+                raw[indiv + 3 + 2 * s + 1] = 0x01;
+            }
+        }
+    }
 }
 
 /// byte offsets of the records of an uncompressed BCF stream
@@ -800,6 +832,10 @@ pub struct Layout {
     /// produced, i.e. 2); BCF 2.1 files are read by the same decoder
     #[serde(default)]
     pub bcf_minor: u8,
+    /// the header carries no ##contig lines (valid VCF; in BCF the records' CHROM ids then have no
+    /// dictionary entry)
+    #[serde(default)]
+    pub no_contig_lines: bool,
 }
 
 /// Frames `data` into BGZF; returns bytes and the offsets at which each block ends.
@@ -911,6 +947,7 @@ pub fn gen_layout(rng: &mut Rng, data: &[u8], line_oriented: bool, max_blocks: u
         eof_marker: !rng.chance(1, 4),
         level: *rng.pick(&[0u32, 1, 6, 6, 9]),
         bcf_minor: if rng.chance(1, 6) { 1 } else { 0 },
+        no_contig_lines: false,
     }
 }
 
@@ -938,9 +975,44 @@ impl Container {
 }
 
 /// Encodes VCF text into the container. Returns (bytes, structural boundaries).
+fn strip_contig_lines(text: &[u8]) -> Vec<u8> {
+    let mut out = Vec::with_capacity(text.len());
+    for line in text.split_inclusive(|&b| b == b'\n') {
+        if !line.starts_with(b"##contig=") {
+            out.extend_from_slice(line);
+        }
+    }
+    out
+}
+
+/// removes the ##contig lines from the header text of a raw BCF stream (l_text adjusted)
+fn bcf_strip_contig_lines(raw: &mut Vec<u8>) {
+    if raw.len() < 9 {
+        return;
+    }
+    let l_text = u32::from_le_bytes([raw[5], raw[6], raw[7], raw[8]]) as usize;
+    if 9 + l_text > raw.len() {
+        return;
+    }
+    let text = strip_contig_lines(&raw[9..9 + l_text]);
+    let mut out = raw[..5].to_vec();
+    out.extend_from_slice(&(text.len() as u32).to_le_bytes());
+    out.extend_from_slice(&text);
+    out.extend_from_slice(&raw[9 + l_text..]);
+    *raw = out;
+}
+
 pub fn encode(vcf: &[u8], container: Container, layout: &Layout) -> io::Result<(Vec<u8>, Vec<usize>)> {
+    let stripped;
+    let vcf_text: &[u8] = if layout.no_contig_lines && matches!(container, Container::Vcf | Container::VcfGz) {
+        stripped = strip_contig_lines(vcf);
+        &stripped
+    } else {
+        vcf
+    };
     match container {
         Container::Vcf => {
+            let vcf = vcf_text;
             let b: Vec<usize> = vcf
                 .iter()
                 .enumerate()
@@ -949,11 +1021,14 @@ pub fn encode(vcf: &[u8], container: Container, layout: &Layout) -> io::Result<(
                 .collect();
             Ok((vcf.to_vec(), b))
         }
-        Container::VcfGz => Ok(bgzf_frame(vcf, layout)),
+        Container::VcfGz => Ok(bgzf_frame(vcf_text, layout)),
         Container::Bcf => {
             let mut raw = vcf_to_bcf(vcf)?;
             if layout.bcf_minor != 0 && raw.len() > 5 {
                 raw[4] = layout.bcf_minor;
+            }
+            if layout.no_contig_lines {
+                bcf_strip_contig_lines(&mut raw);
             }
             Ok(bgzf_frame(&raw, layout))
         }
@@ -961,6 +1036,9 @@ pub fn encode(vcf: &[u8], container: Container, layout: &Layout) -> io::Result<(
             let mut raw = vcf_to_bcf(vcf)?;
             if layout.bcf_minor != 0 && raw.len() > 5 {
                 raw[4] = layout.bcf_minor;
+            }
+            if layout.no_contig_lines {
+                bcf_strip_contig_lines(&mut raw);
             }
             Ok((raw, vec![3, 5, 9]))
         }
